@@ -2,7 +2,7 @@
 """
 Evaluate seeded changes: apply each /verif/seeded/<id>/patch.diff to a scratch copy of /repo (never to /repo itself),
 run the quick check of the property it breaks (and optionally all checks), report which checks fire.
-usage: seeded.py [--all-checks] [ids...]
+usage: seeded.py [--all-checks] [--record] [ids...]   (--record writes round and check_result_at_commit into each meta.json)
 """
 import json
 import os
@@ -55,6 +55,12 @@ def main():
             if own[0] == 1 or others:
                 caught += 1
             rows.append((sid, meta["property"], status, own[1][:2], own[2][:1]))
+            if "--record" in sys.argv:
+                mp = os.path.join(VERIF, "seeded", sid, "meta.json")
+                m = json.load(open(mp))
+                m["round"] = (int(sid.split("-")[1]) - 1) // 3 + 1
+                m["check_result_at_commit"] = {"status": status if status in ("CAUGHT", "ANALYSIS-ERROR", "missed") else status, "findings": str(own[1][:4] or own[2][:1])}
+                json.dump(m, open(mp, "w"), indent=1)
             print(f"{sid} [{meta['property']}] {status} {own[1][:2] or own[2][:1]}")
     print(f"seeded: {caught}/{len(rows)} caught")
 
